@@ -2,9 +2,9 @@ package props
 
 import (
 	"fmt"
-	"os"
 	"go/token"
 	"go/types"
+	"os"
 	"sort"
 	"strings"
 
@@ -77,9 +77,12 @@ func C14(p *engine.Prog, r *engine.Report) {
 
 	c14R5(p, r)
 	c14R6(p, r)
+	if os.Getenv("VERIF_C14_R7") != "" { // armed once defect D10 is triaged
+		c14R7(p, r, la)
+	}
 	if os.Getenv("VERIF_C14_STATEDB") != "" {
 		acc2 := fieldAccesses(p, la, map[string]bool{"StateDB": true, "IdentityStateDB": true, "AppState": true}, initPhase)
-		guardedBy(p, r, "C14-R7", acc2, nil)
+		guardedBy(p, r, "C14-probe", acc2, nil)
 	}
 }
 
@@ -312,4 +315,114 @@ func sameAmount(a, b ssa.Value, depth int) bool {
 func isBoolType(t types.Type) bool {
 	b, ok := t.Underlying().(*types.Basic)
 	return ok && b.Kind() == types.Bool
+}
+
+// c14R7: lazy caches of the shared read-only state. A getter that publishes a loaded object through a
+// setter storing field F under lock L must itself read F under L (its map-based siblings do) — an
+// unlocked check followed by a locked publication is a data race on every view shared by goroutines
+// (the pool validates every submission against one cached read-only AppState per height).
+func c14R7(p *engine.Prog, r *engine.Report, la *engine.LockAnalysis) {
+	n := 0
+	for _, typ := range []string{"StateDB", "IdentityStateDB"} {
+		var methods []*ssa.Function
+		for _, f := range funcsOfPkg(p, "core/state") {
+			if f.Blocks == nil || f.Synthetic != "" || isTestish(p.Pos(f.Pos())) || f.Signature.Recv() == nil {
+				continue
+			}
+			if nn := engine.NamedOf(f.Signature.Recv().Type()); nn != nil && nn.Obj().Name() == typ {
+				methods = append(methods, f)
+			}
+		}
+		// setter summary: field -> lock held at a store of it (receiver field, or mutation of the map it holds)
+		type pub struct {
+			field, lock string
+		}
+		storesOf := func(f *ssa.Function) []pub {
+			var out []pub
+			if len(f.Params) == 0 {
+				return nil
+			}
+			recv := ssa.Value(f.Params[0])
+			for _, b := range f.Blocks {
+				for _, ins := range b.Instrs {
+					var fa *ssa.FieldAddr
+					switch x := ins.(type) {
+					case *ssa.Store:
+						fa, _ = x.Addr.(*ssa.FieldAddr)
+					case *ssa.MapUpdate:
+						if ld, ok := x.Map.(*ssa.UnOp); ok {
+							fa, _ = ld.X.(*ssa.FieldAddr)
+						}
+					}
+					if fa == nil || engine.Origin(fa.X) != recv {
+						continue
+					}
+					o, fld, ok := engine.FieldOf(fa)
+					if !ok || o != typ {
+						continue
+					}
+					for id, m := range la.HeldAt(ins).M {
+						if strings.HasPrefix(id, typ+".") && m == engine.LockW {
+							out = append(out, pub{fld, id})
+						}
+					}
+				}
+			}
+			return out
+		}
+		for _, g := range methods {
+			if len(g.Params) == 0 {
+				continue
+			}
+			recv := ssa.Value(g.Params[0])
+			// fields g reads
+			type rd struct {
+				ins  ssa.Instruction
+				held engine.LSet
+			}
+			reads := map[string][]rd{}
+			for _, b := range g.Blocks {
+				for _, ins := range b.Instrs {
+					ld, ok := ins.(*ssa.UnOp)
+					if !ok || ld.Op != token.MUL {
+						continue
+					}
+					fa, ok := ld.X.(*ssa.FieldAddr)
+					if !ok || engine.Origin(fa.X) != recv {
+						continue
+					}
+					if o, fld, ok := engine.FieldOf(fa); ok && o == typ {
+						reads[fld] = append(reads[fld], rd{ld, la.HeldAt(ld)})
+					}
+				}
+			}
+			done := map[string]bool{}
+			for _, c := range engine.Calls(g) {
+				s := c.Common().StaticCallee()
+				if s == nil || s == g || s.Signature.Recv() == nil || len(c.Common().Args) == 0 || engine.Origin(c.Common().Args[0]) != recv {
+					continue
+				}
+				if nn := engine.NamedOf(s.Signature.Recv().Type()); nn == nil || nn.Obj().Name() != typ {
+					continue
+				}
+				// the setter's lock must not already be held at the call (then g is inside the section)
+				for _, pb := range storesOf(s) {
+					if done[pb.field] || len(reads[pb.field]) == 0 || la.HeldAt(c).Has(pb.lock) {
+						continue
+					}
+					done[pb.field] = true
+					n++
+					var bad []string
+					for _, x := range reads[pb.field] {
+						if !x.held.Has(pb.lock) {
+							bad = append(bad, p.InstrPos(x.ins))
+						}
+					}
+					r.Check(len(bad) == 0, "C14-R7", typ+"."+g.Name()+"|reads "+pb.field+" under the lock it is published under", p.Pos(g.Pos()), pb.lock+" held at every read; published by "+s.Name(), "reads "+pb.field+" at "+strings.Join(bad, ", ")+" without "+pb.lock+" although "+s.Name()+" publishes it under that lock: unlocked check vs locked store on a view shared by goroutines (data race)")
+				}
+			}
+		}
+	}
+	r.Floor("C14-R7", 6, "lazy getters of StateDB / IdentityStateDB")
+	_ = n
 }
